@@ -281,8 +281,7 @@ def copy_node(n, memo=None, shallow_targets=True):
         c.fields = {k: copy_node(v) for k, v in n.fields.items()}
     if n.elems is not None:
         c.elems = [(i, copy_node(v)) for i, v in n.elems]
-    if n.vec is not None:
-        c.vec = copy_node(n.vec)
+    c.vec = n.vec      # heap buffer: shared by moves/copies of the owning struct (Vec::clone is a model)
     return c
 
 
@@ -323,7 +322,7 @@ def clone_graph(n, memo):
 # ------------------------------------------------------------------ state
 
 class Frame:
-    __slots__ = ("fn", "locals", "bb", "dest", "ret_bb", "visits", "cont", "stash")
+    __slots__ = ("fn", "locals", "bb", "dest", "ret_bb", "visits", "cont", "stash", "stmt_idx")
 
     def __init__(self, fn):
         self.fn = fn
@@ -332,6 +331,7 @@ class Frame:
         self.dest = None
         self.ret_bb = None
         self.visits = {}
+        self.stmt_idx = None
         self.cont = None     # python continuation run when this frame returns (model-driven calls of closures)
         self.stash = None    # nodes the continuation needs (cloned with the state)
 
@@ -349,9 +349,10 @@ def clone_value(v, memo):
 
 
 class Event:
-    __slots__ = ("callee", "norm", "args", "ret", "site", "depth", "kind")
+    __slots__ = ("callee", "norm", "args", "ret", "site", "depth", "kind", "crate")
 
-    def __init__(self, callee, norm, args, ret, site, depth, kind="call"):
+    def __init__(self, callee, norm, args, ret, site, depth, kind="call", crate=False):
+        self.crate = crate
         self.callee = callee
         self.norm = norm
         self.args = args
@@ -385,12 +386,13 @@ class State:
             g.visits = dict(f.visits)
             g.locals = {k: clone_graph(v, memo) for k, v in f.locals.items()}
             g.dest = clone_graph(f.dest, memo)
+            g.stmt_idx = f.stmt_idx
             g.cont = f.cont
             g.stash = clone_value(f.stash, memo) if f.stash is not None else None
             s.frames.append(g)
         for e in self.trace:
             s.trace.append(Event(e.callee, e.norm, [clone_graph(a, memo) for a in e.args],
-                                 clone_graph(e.ret, memo), e.site, e.depth, e.kind))
+                                 clone_graph(e.ret, memo), e.site, e.depth, e.kind, e.crate))
         s.extra = {k: clone_value(v, memo) for k, v in self.extra.items()}
         s.heap = {k: clone_graph(v, memo) for k, v in self.heap.items()}
         return s
@@ -406,6 +408,10 @@ class Path:
         self.ret = ret
         self.site = site
         self.args = state.extra.get("args")
+
+    def crate_calls(self):
+        """Calls into the crate itself or into the driver (std helpers such as iterators are left out)."""
+        return [e for e in self.trace if e.kind == "call" and e.crate]
 
     def calls(self, pattern=None):
         if pattern is None:
@@ -438,6 +444,14 @@ def normalise_callee(text):
     `<Result<A, B> as Try>::branch` -> `<Result as Try>::branch`;
     `<&i64 as BitAnd<i64>>::bitand` -> `<&i64 as BitAnd>::bitand`."""
     t = strip_lifetimes(text.strip())
+    t = re.sub(r"<impl \[[^\]]*\]>", "<impl [T]>", t)
+    t = _normalise_callee(t)
+    while "::::" in t:
+        t = t.replace("::::", "::")
+    return t
+
+
+def _normalise_callee(t):
     if t.startswith("<"):
         j = mirparse.scan_balanced(t, 1, ">")
         inside = t[1:j]
@@ -521,6 +535,8 @@ class Engine:
         self.view_heap = {}
         from . import models
         models.install(self)
+        from . import itermodels
+        itermodels.install(self)
 
     def keep_events(self, *patterns):
         self.keep.extend(re.compile(p) for p in patterns)
@@ -652,6 +668,16 @@ class Engine:
             node.target = t
         return node.target
 
+    def intern(self, node, suffix, ty=None):
+        """Heap object owned by `node` (e.g. a Vec's buffer), interned per state by symbolic name."""
+        heap = self.cur_state.heap if self.cur_state is not None else self.view_heap
+        key = (node.root, tuple(i.get_id() for i in node.idxs), node.path + suffix)
+        t = heap.get(key)
+        if t is None:
+            t = node.child(suffix, ty)
+            heap[key] = t
+        return t
+
     def focus(self, path_or_state):
         """Navigate (deref) relative to the final state of a path; None = initial-state view."""
         if path_or_state is None:
@@ -667,6 +693,8 @@ class Engine:
 
     def elem(self, node, idx_term, ty=None):
         """Element of a slice-like node at a (symbolic) index; no bounds check here."""
+        if isinstance(node.conc, tuple) and node.conc[0] == "fill":
+            return copy_node(node.fields[0])
         if node.elems is None:
             node.elems = []
         idx_term = z3.simplify(idx_term)
@@ -712,9 +740,10 @@ class Engine:
         raise Unsupported("place kind %s" % k)
 
     def index_node(self, st, base, idx):
+        from .itermodels import index_elem
         if base.vec is not None:
             base = base.vec
-        return self.elem(base, idx)
+        return index_elem(self, st, base, idx)
 
     def operand(self, st, frame, op, ty_hint=None):
         k = op[0]
@@ -1031,25 +1060,42 @@ class Engine:
         return "%s:bb%d" % (short_name(frame.fn.name), frame.bb)
 
     def _run(self, st):
+        from .itermodels import NeedSplit
         while True:
             self.cur_state = st
             frame = st.frames[-1]
             fn = frame.fn
             bb = frame.bb
-            v = frame.visits.get(bb, 0)
-            if v >= self.max_visits:
-                self._end(st, "cut", "loop:bb%d" % bb, site=self.site(frame))
-                return
-            frame.visits[bb] = v + 1
-            self.stats["blocks"] += 1
+            resume = frame.stmt_idx          # None, or (bb, statement index) after a NeedSplit
+            frame.stmt_idx = None
+            if resume is not None and resume[0] != bb:
+                resume = None
+            if resume is None:
+                v = frame.visits.get(bb, 0)
+                if v >= self.max_visits:
+                    self._end(st, "cut", "loop:bb%d" % bb, site=self.site(frame))
+                    return
+                frame.visits[bb] = v + 1
+                self.stats["blocks"] += 1
             if bb not in fn.blocks:
                 self._end(st, "unsupported", "missing block bb%d" % bb, site=self.site(frame))
                 return
             stmts, term = fn.blocks[bb]
+            i = resume[1] if resume is not None else 0
             try:
-                for s in stmts:
-                    self.statement(st, frame, s)
+                while i < len(stmts):
+                    self.statement(st, frame, stmts[i])
+                    i += 1
                 cont = self.terminator(st, frame, term)
+            except NeedSplit as ns:
+                if st.frames[-1] is not frame:
+                    self._end(st, "unsupported", "symbolic index into a concrete vector inside a model continuation",
+                              site=self.site(frame))
+                    return
+                self.stats["splits"] = self.stats.get("splits", 0) + 1
+                frame.stmt_idx = (bb, i)
+                self._fork(st, [(c, self._resume()) for c in ns.conds])
+                return
             except Unsupported as e:
                 self._end(st, "unsupported", str(e), site=self.site(frame))
                 return
@@ -1058,6 +1104,11 @@ class Engine:
                 return
             if cont is None:
                 return
+
+    def _resume(self):
+        def cont(s2):
+            self._run(s2)
+        return cont
 
     def statement(self, st, frame, s):
         k = s[0]
@@ -1182,6 +1233,10 @@ class Engine:
         args = [self.operand(st, frame, o) for o in ops]
         dest_ty = self.place_ty(frame, dest) if dest is not None else None
         site = self.site(frame)
+
+        # callees the obligation wants to observe as events take precedence over models and inlining
+        if self.keep and any(rx.search(norm) for rx in self.keep) and norm not in self.inline:
+            return self.uninterpreted(st, frame, dest, dest_ty, ret_bb, callee, norm, args, site)
 
         # (a) exact model
         model = self.models.get(norm)
@@ -1322,6 +1377,7 @@ class Engine:
         snap = [copy_node(a) for a in args]
         ret = Node(fresh_root("c"), ty=dest_ty)
         ev = Event(callee, norm, snap, ret, site, len(st.frames))
+        ev.crate = ("TestDriver" in norm) or (self.resolve(norm, len(args)) is not None)
         st.trace.append(ev)
         if havoc_mut:
             fn = frame.fn
